@@ -171,6 +171,39 @@ def run(ctx):
         ctx.check(ok, RP, "decompress::copies-decoder-to-output", db["file"], "decompress copies the streaming decoder into the created output file")
         ctx.check(any(x.get("k") == "Try" and hq.peel(x["e"]) is cp[0] for x in hq.find(db["body"], lambda x: x.get("k") == "Try")), RP,
                   "decompress::errors-propagate", db["file"], "a decode error becomes the process's failure")
+        # the sink is the file itself: a failed write surfaces at the write.  A buffering adaptor (BufWriter,
+        # LineWriter) swallows the error of its final flush when it is dropped — then an explicit, propagated
+        # flush of that adaptor has to follow the library call
+        for fn, node in (("compress", call["args"][1]), ("decompress", cp[0]["args"][1] if cp else None)):
+            hb2 = ctx.hir(CLI + "::" + fn, CLI)
+            ty = (node or {}).get("ty", "")
+            plain = ty in ("std::fs::File", "&std::fs::File", "&mut std::fs::File")
+            ok = plain
+            how = "unbuffered file"
+            if not plain and node is not None:
+                ix2 = hq.Index(hb2)
+                root = hq.peel(node)
+                while root.get("k") in ("AddrOf", "Unary"):
+                    root = hq.peel(root["e"])
+                by_ref = hq.peel(node).get("k") == "AddrOf" and root.get("k") == "Local"
+                def flushes(x):
+                    if x.get("k") not in ("MethodCall", "Call") or root.get("k") != "Local" or x["sp"][0] <= node["sp"][1]:
+                        return False
+                    cal = H.canon_path(H.callee(x) or "")
+                    if not (cal.endswith("io::Write::flush") or cal.endswith("BufWriter::into_inner")):
+                        return False
+                    r = hq.peel(x["recv"] if x["k"] == "MethodCall" else (x["args"][0] if x["args"] else {}))
+                    while r.get("k") in ("AddrOf", "Unary"):
+                        r = hq.peel(r["e"])
+                    return r.get("k") == "Local" and r["lid"] == root["lid"]
+                fl = hq.find(hb2["body"], flushes)
+                prop_ = [x for x in fl if (ix2.parent.get(id(x)) or {}).get("k") == "Try" and not dom.conds(ix2, x, ("if", "arm", "while", "for", "loop"))]
+                ok = by_ref and len(prop_) >= 1
+                how = "buffered (%s), flushed and propagated: %s" % (ty, bool(prop_))
+            ctx.check(ok, RP, fn + "::sink-errors-not-swallowed", hb2["file"],
+                      "the output sink must be the file itself, or a buffering adaptor passed by reference whose flush()? follows "
+                      "unconditionally (a dropped BufWriter discards the error of its last write: exit status 0 with a truncated file)",
+                      observed=how)
         # default output names
         mb = ctx.hir(CLI + "::main", CLI)
         s = H.show(mb["body"])
